@@ -96,6 +96,18 @@ class C04(Prop):
                     txt = b"\n".join(bytes([97 + r.below(26)]) * r.range(20, 90) for _ in range(r.range(8, 60)))
                     return dict(c, values=[hx(txt)])
                 prog = [(t, hh, [bulk(c) for c in calls]) for t, hh, calls in prog]
+            elif r.chance(1, 6):
+                # very LONG LINES (at and beyond 4096 bytes, a scanner's / reader's default buffer): a neighbour's long line must
+                # survive a rewrite in one piece, and an old body made of one long run of dashes must leave no residue
+                def longline(c):
+                    if c["api"] != "snap" or not r.chance(1, 2):
+                        return c
+                    n_ = r.choice([4095, 4096, 4097, 4099, 5000, 8192, 70000])
+                    ch = r.choice([b"x", b"-", b"ab", b" "])
+                    line = (ch * n_)[:n_]
+                    txt = r.choice([line, b"head\n" + line + b"\ntail", line + b"\nold tail", b"a\n" + line])
+                    return dict(c, values=[hx(txt)])
+                prog = [(t, hh, [longline(c) for c in calls]) for t, hh, calls in prog]
             prog2 = G.mutate_program(r, prog, frac=r.choice([(0, 1), (1, 4), (1, 2), (1, 1)]), collide=collide)
             # standalone values are not touched by mutate_program's generator for non-multi apis: mutate by hand
             prog2 = [(t, hh, [dict(c, doc=hx(G.gen_text(r))) if c["api"] == "stand" and r.chance(1, 2) else c for c in calls]) for t, hh, calls in prog2]
